@@ -19,12 +19,15 @@ structure IObs where
   outcome : String
   calls : Nat
   flag : String
+  /-- virtual ms at which the handler was entered (scenarios with a shutdown signal) -/
+  started : Option Nat := none
 
 def parseObs (t : String) : Option IObs :=
   match t.splitOn "=" with
   | [id, rest] =>
     match rest.splitOn "/" with
     | [o, n, f] => some { id := natTok id, outcome := o, calls := natTok n, flag := f }
+    | [o, n, f, st] => some { id := natTok id, outcome := o, calls := natTok n, flag := f, started := st.toNat? }
     | _ => none
   | _ => none
 
@@ -42,9 +45,47 @@ def verdictOne (r : Req) (o : IObs) : Option String :=
   else if o.outcome == "ok" || o.outcome == "cancelled" then none
   else some "C01/unparsable-observation"
 
+/-- C07 on one request of a scenario with a graceful-shutdown signal at `sig` ms: a request whose
+    handler had been entered before the signal gets its complete, correct response; one that the
+    server never started to handle may be refused. -/
+def verdictSignal (sig : Nat) (o : IObs) : Option String :=
+  if o.outcome.startsWith "mismatch:" then some "C01/response-mismatch"
+  else if o.flag.startsWith "bad:" then some "C01/request-altered"
+  else if o.calls > 1 then some "C01/request-duplicated"
+  else match o.started with
+    | some st =>
+      if st < sig && o.outcome != "ok" then some "C07/inflight-response-lost"
+      else if o.outcome == "ok" || o.outcome.startsWith "err:" then none
+      else some "C07/unparsable-observation"
+    | none =>
+      if o.outcome == "ok" then some "C01/response-without-request"
+      else if o.outcome.startsWith "err:" then none
+      else some "C07/request-never-resolved"
+
+/-- scenarios with a signal: `e2e <buf> <pool> <tls> <sig> ; <req> ; … | <id>=<outcome>/<calls>/<flag>/<started> … srv=<ok>/<n>` -/
+def signalLine (sig : Nat) (rs : List (List String)) (obs : List String) : Bool × Bool × String × String :=
+  let reqs := rs.filterMap parseReq
+  let iobs := obs.filterMap parseObs
+  let srvTok := obs.find? (·.startsWith "srv=")
+  if reqs.length != rs.length || iobs.length != reqs.length || srvTok.isNone then
+    (false, false, "C07/unparsable-observation", s!"reqs={reqs.length}/{rs.length} obs={iobs.length}")
+  else
+    let srvOk := match srvTok with
+      | some t => (match ((t.drop 4).toString.splitOn "/") with | [a, b] => a == b | _ => false)
+      | none => false
+    -- the model (`Server.lean`, C07_inflight_completes / C07_completed_for_good): every exchange the server
+    -- has started is finished, nothing else is promised, the serving futures complete
+    let shown := " ".intercalate (reqs.map fun r => s!"{r.id}=ok-if-started-before-{sig}") ++ " srv=all"
+    let cls := (iobs.foldl (fun acc o => acc <|> verdictSignal sig o) none) <|>
+      (if srvOk then none else some "C07/server-not-stopped")
+    let agree := (reqs.zip iobs).all (fun (r, o) => o.id == r.id) && srvOk &&
+      iobs.all (fun o => match o.started with | some st => st >= sig || o.outcome == "ok" | none => true)
+    (agree, cls.isNone, cls.getD "-", shown)
+
 /-- `e2e <buf> <pool> <tls> ; <req> ; … | <id>=<outcome>/<calls>/<flag> …` -/
 def driverLine (inp obs : List String) : Bool × Bool × String × String :=
   match splitSemi inp with
+  | [_buf, _pool, _tls, sig] :: rs => signalLine (natTok sig) rs obs
   | [_buf, _pool, _tls] :: rs =>
     let reqs := rs.filterMap parseReq
     let iobs := obs.filterMap parseObs
